@@ -20,7 +20,10 @@ def _norm(g: dict) -> dict:
     the path was spelled (`import ""` is a directory under an absolute path and the empty
     path under a relative one): only 'it failed with an OS error' is compared."""
     o = g["outcome"]
-    return {"outcome": "oserror" if o.startswith("oserror:") else o, "outputs": g["outputs"]}
+    # (and HOW an unsuccessful compile fails may depend on lint on/off and on API vs command
+    # line -- e.g. the deep-nesting RecursionError of the known finding surfaces in lint for B
+    # and in the renderer for A: unsuccessful goldens only have to agree on being unsuccessful)
+    return {"outcome": "ok" if o == "ok" else "failed", "outputs": g["outputs"] if o == "ok" else {}}
 
 
 class Goldens:
